@@ -51,13 +51,13 @@ func stallPoints(endpoint string) []string {
 func handshakeStallPoints(endpoint string) []string {
 	switch endpoint {
 	case "socket", "packet":
-		return []string{"after-connect", "partial-request-line", "between-announce-and-upgrade", "after-upgrade-silence", "after-upgrade-garbage"}
+		return []string{"after-connect", "partial-request-line", "announce-unsupported-version", "announce-then-bad-upgrade", "between-announce-and-upgrade", "after-upgrade-silence", "after-upgrade-garbage"}
 	case "socket+tls":
 		return []string{"after-connect", "partial-tls-hello", "tls-then-silence", "tls-partial-request-line"}
 	case "dns":
 		return []string{"version-only", "hello-only", "hello-then-partial-announce"}
 	case "http":
-		return []string{"after-connect", "partial-http-request", "ws-then-silence", "ws-then-partial-announce"}
+		return []string{"after-connect", "partial-http-request", "ws-then-silence", "ws-then-partial-announce", "ws-then-unsupported-version"}
 	}
 	return nil
 }
@@ -144,6 +144,12 @@ func stall(w *world.World, c Case) (alive func() bool, err error) {
 	case "after-connect":
 	case "partial-request-line":
 		raw.Write([]byte("X-SOCKETAC"))
+	case "announce-unsupported-version":
+		// a well-formed first request offering only a version the server does not speak: it is
+		// refused (409) - and the peer stays connected
+		raw.Write([]byte("X-SOCKETACE / HTTP/1.1\r\nAccepts-Protocol-Version: v9.9.9\r\nUser-Agent: old-client\r\n\r\n"))
+	case "announce-then-bad-upgrade":
+		raw.Write([]byte(announce + "POST / HTTP/1.1\r\nConnection: close\r\nUpgrade: websocket\r\n\r\n"))
 	case "between-announce-and-upgrade":
 		raw.Write([]byte(announce))
 	case "after-upgrade-silence":
@@ -161,8 +167,14 @@ func stall(w *world.World, c Case) (alive func() bool, err error) {
 		}()
 	case "partial-http-request":
 		raw.Write([]byte("GET /ws HTTP/1.1\r\nHost: server.test\r\nUpgr"))
-	case "ws-then-silence", "ws-then-partial-announce":
+	case "ws-then-silence", "ws-then-partial-announce", "ws-then-unsupported-version":
 		raw.Write([]byte("GET /ws HTTP/1.1\r\nHost: server.test\r\nUpgrade: websocket\r\nConnection: Upgrade\r\nSec-WebSocket-Key: dGhlIHNhbXBsZSBub25jZQ==\r\nSec-WebSocket-Version: 13\r\n\r\n"))
+		if c.Stall == "ws-then-unsupported-version" {
+			bubble.Wait()
+			msg := "X-SOCKETACE / HTTP/1.1\r\nAccepts-Protocol-Version: v9.9.9\r\n\r\n"
+			frame := append([]byte{0x82, 0x80 | byte(len(msg)), 0, 0, 0, 0}, []byte(msg)...) // masked with a zero key
+			raw.Write(frame)
+		}
 		if c.Stall == "ws-then-partial-announce" {
 			bubble.Wait()
 			// one unmasked-looking binary frame header + a few bytes (a client must mask; garbage is fine too)
